@@ -905,12 +905,155 @@ package mocrelay
 //@   ensures[C16] typeis(msg, *ClientCountMsg) ==> (holdsOneS(result0) && isCountFor(chanbuf(result0)[0], as(msg, *ClientCountMsg).SubscriptionID))
 //@   ensures[C16] (typeis(msg, *ClientCloseMsg) || typeis(msg, *ClientAuthMsg)) ==> isnil(result0)
 
+// ---- EventCache: retention (C04), deletion requests (C05), lock discipline (C15)
+//@ func Event.EventType
+//@   serves C04
+//@   pure
+//@   requires ev != nil
+//@   ensures[C04] result == classOf(ev.Kind)
+
+//@ func NewEventCache
+//@   serves C04 C15
+//@   requires capacity >= 0
+//@   ensures fresh(result) && result.Cap == capacity && held(result.mu) == 0
+//@   ensures[C04] cacheWF(result) && len(result.evs) == 0 && result.Cap >= 0
+
+//@ func newEventCacheEvsIndex
+//@   serves C03 C04
+//@   writes nothing
+//@   ensures fresh(result) && result.total == total && fresh(result.idx) && len(result.idx) == 0
+
+//@ func EventCache.len
+//@   serves C04 C15
+//@   requires c != nil && held(c.mu) >= 1
+//@   writes nothing
+//@   ensures result == len(c.evs)
+
+//@ func EventCache.Len
+//@   serves C15
+//@   requires c != nil && held(c.mu) == 0
+//@   writes lock(c.mu)
+//@   ensures[C15] held(c.mu) == 0
+
+//@ func EventCache.getEventKey
+//@   serves C04 C05
+//@   uses dval_def
+//@   requires event != nil
+//@   writes nothing
+//@   ensures[C04] !isEphemeralKind(event.Kind) ==> result == cacheKeyOf(event)
+
+//@ func EventCache.isDeleted
+//@   serves C05 C15
+//@   requires c != nil && held(c.mu) >= 1
+//@   writes nothing
+//@   ensures[C05] result == suppressed(c, eventKey, pubkey)
+
+//@ func EventCache.getEventKeyFromKind5Tags
+//@   serves C05
+//@   requires event != nil
+//@   writes nothing
+//@   ensures[C05] forall(i, 0, len(result), refsKey(event, result[i]))
+//@   ensures[C05] forall(j, 0, len(event.Tags), refTag(event.Tags[j]) ==> exists(i, 0, len(result), result[i] == event.Tags[j][1]))
+//@   loop 1 as n
+//@     invariant forall(i, 0, len(ret), refsKey(event, ret[i]))
+//@     invariant forall(j, 0, n, refTag(event.Tags[j]) ==> exists(i, 0, len(ret), ret[i] == event.Tags[j][1]))
+
+//@ func eventCacheEvsCreatedAtKeyTreeCmp
+//@   serves C03 C04
+//@   pure
+//@   ensures result == tmLess(a, b)
+
+//@ func EventCache.getOldestEvent
+//@   serves C04 C15
+//@   requires held(c.mu) >= 1 && cacheWF(c) && len(c.evs) > 0
+//@   writes nothing
+//@   ensures[C04] result != nil && retained(c, result)
+//@   ensures[C04] all(k, string, has(c.evs, k) ==> c.evs[k].CreatedAt >= result.CreatedAt)
+
+//@ func eventCacheEvsIndex.Add
+//@   serves C03 C15
+//@   requires c != nil && c.idx != nil && event != nil && idxLocked(c, 2)
+//@   writes contents(c.idx), eachkey(k, c.idx, contents(c.idx[k]))
+//@   ensures all(k, eventCacheEvsIndexKey, has(c.idx, k) ==> ((old(has(c.idx, k)) && c.idx[k] == old(c.idx[k])) || fresh(c.idx[k])))
+//@   loop 1
+//@     invariant all(k, eventCacheEvsIndexKey, has(c.idx, k) ==> ((old(has(c.idx, k)) && c.idx[k] == old(c.idx[k])) || fresh(c.idx[k])))
+
+//@ func eventCacheEvsIndex.Delete
+//@   serves C03 C15
+//@   requires c != nil && c.idx != nil && event != nil && idxLocked(c, 2)
+//@   writes contents(c.idx), eachkey(k, c.idx, contents(c.idx[k]))
+//@   ensures all(k, eventCacheEvsIndexKey, has(c.idx, k) ==> (old(has(c.idx, k)) && c.idx[k] == old(c.idx[k])))
+//@   loop 1
+//@     invariant all(k, eventCacheEvsIndexKey, has(c.idx, k) ==> (old(has(c.idx, k)) && c.idx[k] == old(c.idx[k])))
+
+//@ func EventCache.delete
+//@   serves C04 C05 C15
+//@   requires held(c.mu) == 2 && cacheWF(c)
+//@   writes contents(c.evs), contents(c.deleted), eachkey(k, c.deleted, contents(c.deleted[k])), contents(c.evsIndex.idx), eachkey(k, c.evsIndex.idx, contents(c.evsIndex.idx[k])), ghost(tmdom, c.evsCreatedAt), ghost(tmval, c.evsCreatedAt), ghost(tmsize, c.evsCreatedAt)
+//@   ensures[C05] deleted == (old(has(c.evs, delEvKey.EventKey)) && old(c.evs[delEvKey.EventKey]).Pubkey == delEvKey.Pubkey)
+//@   ensures[C04] all(k, string, k != delEvKey.EventKey ==> (has(c.evs, k) == old(has(c.evs, k)) && c.evs[k] == old(c.evs[k])))
+//@   ensures[C04] deleted ==> (!has(c.evs, delEvKey.EventKey) && len(c.evs) == old(len(c.evs)) - 1)
+//@   ensures[C04] !deleted ==> (has(c.evs, delEvKey.EventKey) == old(has(c.evs, delEvKey.EventKey)) && c.evs[delEvKey.EventKey] == old(c.evs[delEvKey.EventKey]) && len(c.evs) == old(len(c.evs)))
+//@   ensures[C04] cacheWF(c)
+//@   ensures[C05] all(k, eventCacheDeletedEventKey, has(c.deleted, k) ==> (old(has(c.deleted, k)) && c.deleted[k] == old(c.deleted[k])))
+//@   ensures all(k, eventCacheEvsIndexKey, has(c.evsIndex.idx, k) ==> (old(has(c.evsIndex.idx, k)) && c.evsIndex.idx[k] == old(c.evsIndex.idx[k])))
+//@   loop 1
+//@     lwrites contents(c.deleted), eachkey(k, c.deleted, contents(c.deleted[k]))
+//@     invariant all(k, eventCacheDeletedEventKey, has(c.deleted, k) ==> (old(has(c.deleted, k)) && c.deleted[k] == old(c.deleted[k])))
+
+//@ func EventCache.add
+//@   serves C04 C15
+//@   uses id_determines_address
+//@   opt merge=off
+//@   requires held(c.mu) == 2 && cacheWF(c) && event != nil && !isEphemeralKind(event.Kind) && eventKey == cacheKeyOf(event)
+//@   writes contents(c.evs), contents(c.deleted), eachkey(k, c.deleted, contents(c.deleted[k])), contents(c.evsIndex.idx), eachkey(k, c.evsIndex.idx, contents(c.evsIndex.idx[k])), ghost(tmdom, c.evsCreatedAt), ghost(tmval, c.evsCreatedAt), ghost(tmsize, c.evsCreatedAt)
+//@   ensures[C04] added == !(old(has(c.evs, eventKey)) && old(c.evs[eventKey]).CreatedAt >= event.CreatedAt)
+//@   ensures[C04] added ==> (has(c.evs, eventKey) && c.evs[eventKey] == event && len(c.evs) == old(len(c.evs)) + ite(old(has(c.evs, eventKey)), 0, 1))
+//@   ensures[C04] !added ==> (has(c.evs, eventKey) && c.evs[eventKey] == old(c.evs[eventKey]) && len(c.evs) == old(len(c.evs)))
+//@   ensures[C04] all(k, string, k != eventKey ==> (has(c.evs, k) == old(has(c.evs, k)) && c.evs[k] == old(c.evs[k])))
+//@   ensures[C04] cacheWF(c)
+//@   ensures[C05] all(k, eventCacheDeletedEventKey, has(c.deleted, k) ==> (old(has(c.deleted, k)) && c.deleted[k] == old(c.deleted[k])))
+//@   ensures all(k, eventCacheEvsIndexKey, has(c.evsIndex.idx, k) ==> ((old(has(c.evsIndex.idx, k)) && c.evsIndex.idx[k] == old(c.evsIndex.idx[k])) || fresh(c.evsIndex.idx[k])))
+
+//@ func EventCache.addKind5
+//@   serves C05 C15
+//@   requires held(c.mu) == 2 && cacheShape(c) && event != nil
+//@   writes contents(c.deleted), eachkey(k, c.deleted, contents(c.deleted[k]))
+//@   ensures all(k, eventCacheDeletedEventKey, has(c.deleted, k) ==> ((old(has(c.deleted, k)) && c.deleted[k] == old(c.deleted[k])) || fresh(c.deleted[k])))
+//@   loop 1
+//@     invariant all(k, eventCacheDeletedEventKey, has(c.deleted, k) ==> ((old(has(c.deleted, k)) && c.deleted[k] == old(c.deleted[k])) || fresh(c.deleted[k])))
+
+//@ func EventCache.deleteByKind5
+//@   serves C04 C05 C15
+//@   requires held(c.mu) == 2 && cacheWF(c) && event != nil
+//@   writes contents(c.evs), contents(c.deleted), eachkey(k, c.deleted, contents(c.deleted[k])), contents(c.evsIndex.idx), eachkey(k, c.evsIndex.idx, contents(c.evsIndex.idx[k])), ghost(tmdom, c.evsCreatedAt), ghost(tmval, c.evsCreatedAt), ghost(tmsize, c.evsCreatedAt)
+//@   ensures[C04] cacheWF(c) && len(c.evs) <= old(len(c.evs))
+//@   ensures[C05] all(k, string, has(c.evs, k) ==> (old(has(c.evs, k)) && c.evs[k] == old(c.evs[k])))
+//@   ensures[C05] all(k, string, (old(has(c.evs, k)) && !has(c.evs, k)) ==> (refsKey(event, k) && old(c.evs[k]).Pubkey == event.Pubkey))
+//@   ensures[C05] all(k, string, (refsKey(event, k) && old(has(c.evs, k)) && old(c.evs[k]).Pubkey == event.Pubkey) ==> !has(c.evs, k))
+//@   ensures all(k, eventCacheDeletedEventKey, has(c.deleted, k) ==> (old(has(c.deleted, k)) && c.deleted[k] == old(c.deleted[k])))
+//@   ensures all(k, eventCacheEvsIndexKey, has(c.evsIndex.idx, k) ==> (old(has(c.evsIndex.idx, k)) && c.evsIndex.idx[k] == old(c.evsIndex.idx[k])))
+//@   loop 1 as n
+//@     lwrites contents(c.evs), contents(c.deleted), eachkey(k, c.deleted, contents(c.deleted[k])), contents(c.evsIndex.idx), eachkey(k, c.evsIndex.idx, contents(c.evsIndex.idx[k])), ghost(tmdom, c.evsCreatedAt), ghost(tmval, c.evsCreatedAt), ghost(tmsize, c.evsCreatedAt)
+//@     invariant cacheWF(c) && len(c.evs) <= old(len(c.evs))
+//@     invariant all(k, string, has(c.evs, k) ==> (old(has(c.evs, k)) && c.evs[k] == old(c.evs[k])))
+//@     invariant all(k, string, (old(has(c.evs, k)) && !has(c.evs, k)) ==> (refsKey(event, k) && old(c.evs[k]).Pubkey == event.Pubkey))
+//@     invariant all(k, string, (exists(j, 0, n, keys[j] == k) && old(has(c.evs, k)) && old(c.evs[k]).Pubkey == event.Pubkey) ==> !has(c.evs, k))
+//@     invariant all(k, eventCacheDeletedEventKey, has(c.deleted, k) ==> (old(has(c.deleted, k)) && c.deleted[k] == old(c.deleted[k])))
+//@     invariant all(k, eventCacheEvsIndexKey, has(c.evsIndex.idx, k) ==> (old(has(c.evsIndex.idx, k)) && c.evsIndex.idx[k] == old(c.evsIndex.idx[k])))
+
 //@ func EventCache.Add
-//@   serves C16
-//@   trusted body verified under C04/C05 (retention); here only its result register is used
-//@   requires c != nil && event != nil
-//@   writes contents(c.evs), contents(c.deleted), eachkey(k, c.deleted, contents(c.deleted[k])), contents(c.evsIndex.idx), eachkey(k, c.evsIndex.idx, contents(c.evsIndex.idx[k])), ghost(lastadd, c), ghost(addlog, c), lock(c.mu)
-//@   ensures added == g(lastadd, c)
+//@   serves C04 C05 C15 C16
+//@   uses id_determines_address
+//@   requires c != nil && event != nil && held(c.mu) == 0
+//@   writes contents(c.evs), contents(c.deleted), eachkey(k, c.deleted, contents(c.deleted[k])), contents(c.evsIndex.idx), eachkey(k, c.evsIndex.idx, contents(c.evsIndex.idx[k])), ghost(tmdom, c.evsCreatedAt), ghost(tmval, c.evsCreatedAt), ghost(tmsize, c.evsCreatedAt), ghost(lastadd, c), ghost(addlog, c), lock(c.mu)
+//@   ensures[C15] held(c.mu) == 0
+//@   ensures[C04] isEphemeralKind(event.Kind) ==> (added && all(k, string, has(c.evs, k) == old(has(c.evs, k)) && c.evs[k] == old(c.evs[k])))
+//@   ensures[C04] !isEphemeralKind(event.Kind) ==> (cacheWF(c) && len(c.evs) <= c.Cap)
+//@   ensures[C04] !isEphemeralKind(event.Kind) ==> added == !(old(suppressed(c, cacheKeyOf(event), event.Pubkey)) || (old(has(c.evs, cacheKeyOf(event))) && old(c.evs[cacheKeyOf(event)]).CreatedAt >= event.CreatedAt))
+//@   ensures[C04] all(k, string, (has(c.evs, k) && !(old(has(c.evs, k)) && c.evs[k] == old(c.evs[k]))) ==> (added && k == cacheKeyOf(event) && c.evs[k] == event))
+//@   ensures[C04] all(k, string, (old(has(c.evs, k)) && !(has(c.evs, k) && c.evs[k] == old(c.evs[k]))) ==> (added && leaveReason(c, event, k, old(c.evs[k]), old(len(c.evs)))))
+//@   promises added == g(lastadd, c)
 //@   promises all(k, eventCacheDeletedEventKey, has(c.deleted, k) ==> ((old(has(c.deleted, k)) && c.deleted[k] == old(c.deleted[k])) || fresh(c.deleted[k])))
 //@   promises all(k, eventCacheEvsIndexKey, has(c.evsIndex.idx, k) ==> ((old(has(c.evsIndex.idx, k)) && c.evsIndex.idx[k] == old(c.evsIndex.idx[k])) || fresh(c.evsIndex.idx[k])))
 //@   promises len(g(addlog, c)) == len(old(g(addlog, c))) + 1 && forall(i, 0, len(g(addlog, c)), g(addlog, c)[i] == ite(i < len(old(g(addlog, c))), old(g(addlog, c))[i], event))
@@ -925,7 +1068,7 @@ package mocrelay
 
 //@ func simpleCacheHandler.ServeNostrClientMsg
 //@   serves C16
-//@   requires h != nil && h.c != nil && wfClientMsg(msg)
+//@   requires h != nil && h.c != nil && held(h.c.mu) == 0 && wfClientMsg(msg)
 //@   opt overflow=assume
 //@   ensures result1 == nil
 //@   ensures[C16] typeis(msg, *ClientEventMsg) ==> (holdsOneS(result0) && isOKFor(chanbuf(result0)[0], as(msg, *ClientEventMsg).Event.ID) && as(chanbuf(result0)[0], *ServerOKMsg).Accepted == g(lastadd, h.c))
@@ -1172,10 +1315,11 @@ package mocrelay
 
 //@ func simpleCacheHandler.Restore
 //@   serves C16
-//@   requires h != nil && h.c != nil
+//@   requires h != nil && h.c != nil && held(h.c.mu) == 0
 //@   requires forall(i, 0, len(jsondecoded([]*Event, readAllOf(r))), jsondecoded([]*Event, readAllOf(r))[i] != nil)
 //@   ensures[C16] result == nil ==> (jsonok([]*Event, readAllOf(r)) && len(g(addlog, h.c)) == len(old(g(addlog, h.c))) + len(jsondecoded([]*Event, readAllOf(r))))
 //@   ensures[C16] result == nil ==> forall(j, 0, len(g(addlog, h.c)), g(addlog, h.c)[j] == ite(j < len(old(g(addlog, h.c))), old(g(addlog, h.c))[j], jsondecoded([]*Event, readAllOf(r))[j - len(old(g(addlog, h.c)))]))
 //@   loop 1 as i
+//@     invariant held(h.c.mu) == 0
 //@     invariant len(g(addlog, h.c)) == len(old(g(addlog, h.c))) + i
 //@     invariant forall(j, 0, len(g(addlog, h.c)), g(addlog, h.c)[j] == ite(j < len(old(g(addlog, h.c))), old(g(addlog, h.c))[j], events[j - len(old(g(addlog, h.c)))]))
